@@ -7,7 +7,7 @@
    Parameter contents live in a store of io-level [param] records indexed by parameter id, so
    a Parameter object registered under two paths (diamond / shared object) IS one record. *)
 From Coq Require Import List Arith NArith Bool Lia Sorted.
-From PV Require Import Base.U32 Base.Err Shape.ShapeImpl Msgpack.Codec Msgpack.FileFormat
+From PV Require Import Base.U32 Base.Err Shape.ShapeImpl Shape.ShapeSpec Shape.ShapeProofs Msgpack.Codec Msgpack.FileFormat
   Msgpack.CodecProofs Msgpack.FileProofs Msgpack.LoadAtomic Msgpack.FileRoundtrip.
 From PV Require Import Registry.ModelReg Registry.RegOrder Registry.RegGraph Registry.RegProofs.
 Import ListNotations.
@@ -617,3 +617,28 @@ Theorem load_model_reg_any ws n' w' m' (es : entries) rest s0 : Inv n' w' ->
 Proof.
   intros HI. apply load_model_reg_plan. apply (traversals_terminate n' w' HI m' 0).
 Qed.
+
+(* ------------------------------------------------------------------ example records (used by the non-vacuity Examples) *)
+Definition sh2 : shape := mkS [2%N] 1%N 2%N.
+(* Parameter p: value words (p+1, 1.0f), some gradient, one statistics tensor "m" *)
+Definition rec (p : pid) : param :=
+  mkP true sh2 (mkT sh2 [N.of_nat p + 1; 0x3f800000]%N) (mkT sh2 [9; 9]%N) [([109%N], mkT sh2 [N.of_nat p; 5]%N)].
+Definition blank : store := fun _ => mkP false scalar_shape (mkT scalar_shape []) (mkT scalar_shape []) [].
+
+Lemma wf_rec p : (N.of_nat p + 1 < 2 ^ 32)%N -> wf_param (rec p).
+Proof.
+  intros Hp.
+  assert (W : wf sh2).
+  { destruct (ShapeProofs.mk_shape_some [2%N] 1%N sh2) as [_ [_ W]]; [|vm_compute; reflexivity|vm_compute; reflexivity|exact W].
+    apply Forall_cons; [vm_compute; reflexivity|apply Forall_nil]. }
+  assert (Hp' : (N.of_nat p < 2 ^ 32)%N).
+  { apply N.lt_trans with (N.of_nat p + 1)%N; [apply N.lt_add_pos_r; reflexivity|exact Hp]. }
+  apply mkWfP; cbn [rec p_valid p_value p_shape p_stats]; try reflexivity.
+  - constructor; cbn [tshape twords]; [exact W|vm_compute; reflexivity| |vm_compute; reflexivity].
+    apply Forall_cons; [exact Hp|]. apply Forall_cons; [vm_compute; reflexivity|apply Forall_nil].
+  - apply Forall_cons; [|apply Forall_nil]. split; [vm_compute; reflexivity|].
+    constructor; cbn [snd tshape twords]; [exact W|vm_compute; reflexivity| |vm_compute; reflexivity].
+    apply Forall_cons; [exact Hp'|]. apply Forall_cons; [vm_compute; reflexivity|apply Forall_nil].
+  - cbn [map fst]. apply NoDup_cons; [intros []|apply NoDup_nil].
+Qed.
+
